@@ -317,6 +317,25 @@ func (o *RecShape) UnmarshalJSON(data []byte) error {
 	return encoding.PopulateStructFromJSON(data, o)
 }
 
+// XStatClaims: a user claims type that keeps a statistic about itself. It is not
+// internally synchronised and need not be: W-CONC only ever uses it as a private
+// object of one task.
+type XStatClaims struct {
+	psatoken.P2Claims
+	nValidate int
+}
+
+func (o *XStatClaims) Validate() error {
+	o.nValidate++
+	return psatoken.ValidateClaims(o)
+}
+func (o XStatClaims) MarshalCBOR() ([]byte, error) { //nolint:gocritic
+	return encoding.SerializeStructToCBOR(xem, &o)
+}
+func (o XStatClaims) MarshalJSON() ([]byte, error) { //nolint:gocritic
+	return encoding.SerializeStructToJSON(&o)
+}
+
 // XIfaceClaims embeds the IClaims interface (holding whatever NewClaims returned).
 type XIfaceClaims struct {
 	psatoken.IClaims
@@ -836,6 +855,8 @@ type XKClaims struct {
 	List  []string `cbor:"-75504,keyasint,omitempty" json:"k-list,omitempty"`
 	Inner *XKInner `cbor:"-75505,keyasint,omitempty" json:"k-inner,omitempty"`
 	Must  int64    `cbor:"-75506,keyasint" json:"k-must"`
+	// an opaque claim kept as the bytes it was encoded in
+	Raw cbor.RawMessage `cbor:"-75508,keyasint,omitempty" json:"k-raw,omitempty"`
 }
 
 // GetWide renders the additional claims, nil and empty told apart.
@@ -851,6 +872,7 @@ func (o *XKClaims) GetWide() string {
 	} else {
 		s += fmt.Sprintf(" list=%q", o.List)
 	}
+	s += fmt.Sprintf(" raw=%x", []byte(o.Raw))
 	if o.Inner == nil {
 		s += " inner=nil"
 	} else if o.Inner.N == nil {
